@@ -94,7 +94,7 @@ Lemma ap1_order0 (d : direction) (A B C : list T) :
         else A ++ add_at [(length B - 1)%nat] [sumf C] (add_at [0%nat] [sumf A] B) ++ C).
 Proof.
   intros Hpos HB.
-  unfold apply_padding1. rewrite zlen3.
+  unfold apply_padding1. change size_guard_before_skip with false; cbn [andb]. rewrite zlen3.
   set (a := Z.of_nat (length A)). set (b := Z.of_nat (length B)). set (c := Z.of_nat (length C)).
   unfold padding_skipped. destruct (Z.leb_spec (a + b + c) b) as [Hle|_]; [lia|].
   unfold illegal_size, illegal_padlen. cbn [orb].
@@ -151,7 +151,7 @@ Lemma ap1_order1 (d : direction) (A B C : list T) :
                       (add_at [(length B - 1)%nat] [sumf C] (add_at [0%nat] [sumf A] B))) ++ C).
 Proof.
   intros Hpos HB.
-  unfold apply_padding1. rewrite zlen3.
+  unfold apply_padding1. change size_guard_before_skip with false; cbn [andb]. rewrite zlen3.
   set (a := Z.of_nat (length A)). set (b := Z.of_nat (length B)). set (c := Z.of_nat (length C)).
   unfold padding_skipped. destruct (Z.leb_spec (a + b + c) b) as [Hle|_]; [lia|].
   unfold illegal_size, illegal_padlen. cbn [orb].
